@@ -5,6 +5,10 @@ from xlcalculator.xlfunctions import xl, func_xltypes
 from . import ast_nodes, xltypes
 
 
+class CellEvaluationError(RuntimeError):
+    """A cell could not be evaluated; the message names the failing cell."""
+
+
 class EvaluatorContext(ast_nodes.EvalContext):
 
     def __init__(self, evaluator, ref, seen=None):
@@ -95,8 +99,12 @@ class Evaluator:
         context = context if context is not None else self._get_context(addr)
         try:
             value = cell.formula.ast.eval(context)
+        except CellEvaluationError:
+            # Already names the cell that failed; wrapping it again at every
+            # level of the dependency chain only doubles the message.
+            raise
         except Exception as err:
-            raise RuntimeError(
+            raise CellEvaluationError(
                 f"Problem evaluating cell {addr} formula "
                 f"{cell.formula.formula}: {repr(err)}"
             ).with_traceback(sys.exc_info()[2])
